@@ -386,23 +386,30 @@ func main() {
 		}
 		rep.Extra["replayed"] = len(progs)
 	} else {
+		// small focused programs first (a failure on one of them gives a short replay): one deep jump / one typed
+		// switch each, no random statements around them; then the general programs; then the full-size focused ones.
+		// (a) deep jumps: MiniGo programs whose jumps leave 0..9 variable-declaring scopes at once (Coq cases too);
+		// (b) typed expression switches mixing constant and non-constant cases (differential only)
+		add := func(p *program) {
+			p.Idx = len(progs)
+			progs = append(progs, p)
+		}
+		nsmall := nfocus * 2 / 5
+		for i := 0; i < nsmall; i++ {
+			add(genProgram(rng.Fork(), 2, false, avoid, "deepjump", true))
+		}
+		for i := 0; i < nsmall; i++ {
+			add(genProgram(rng.Fork(), 2, true, avoid, "tswitch", true))
+		}
 		for i := 0; i < nprog; i++ {
 			ext := rng.Chance(45, 100)
-			p := genProgram(rng.Fork(), 2+rng.Intn(maxDepth-1), ext, avoid, "")
-			p.Idx = i
-			progs = append(progs, p)
+			add(genProgram(rng.Fork(), 2+rng.Intn(maxDepth-1), ext, avoid, "", false))
 		}
-		// focused programs: jumps that leave 0..8 variable-declaring scopes at once (MiniGo: also Coq cases);
-		// typed expression switches mixing constant and non-constant cases (differential only)
-		for i := 0; i < nfocus; i++ {
-			p := genProgram(rng.Fork(), 2+rng.Intn(3), false, avoid, "deepjump")
-			p.Idx = len(progs)
-			progs = append(progs, p)
+		for i := nsmall; i < nfocus; i++ {
+			add(genProgram(rng.Fork(), 2+rng.Intn(3), false, avoid, "deepjump", false))
 		}
-		for i := 0; i < nfocus; i++ {
-			p := genProgram(rng.Fork(), 2+rng.Intn(3), true, avoid, "tswitch")
-			p.Idx = len(progs)
-			progs = append(progs, p)
+		for i := nsmall; i < nfocus; i++ {
+			add(genProgram(rng.Fork(), 2+rng.Intn(3), true, avoid, "tswitch", false))
 		}
 	}
 
